@@ -337,6 +337,28 @@ func vRunC13(c *vCase) {
 			c.Violate("c13:projectors-rejected", "SetProjectorsBasis rejected matrices of compatible shape %dx%d / %dx%d: %v", nbases, n, n, nbases, err)
 			return
 		}
+		if vChance(r, 0.4) {
+			// a later request that is refused (good projectors, basis of the wrong shape, or the other way round) must
+			// leave the loaded model as it is: the values of the next record are still those of P and B
+			bad := make([]float64, nbases*n)
+			for i := range bad {
+				bad[i] = r.NormFloat64()
+			}
+			var err error
+			switch r.Intn(3) {
+			case 0:
+				err = dsp.SetProjectorsBasis(mat.NewDense(nbases, n, bad), mat.NewDense(n+1, nbases, make([]float64, (n+1)*nbases)), "refused")
+			case 1:
+				err = dsp.SetProjectorsBasis(mat.NewDense(nbases, n, bad), mat.NewDense(n, nbases+1, make([]float64, n*(nbases+1))), "refused")
+			case 2:
+				err = dsp.SetProjectorsBasis(mat.NewDense(nbases, n+1, make([]float64, nbases*(n+1))), mat.NewDense(n, nbases, bad), "refused")
+			}
+			if err == nil {
+				c.Violate("c13:bad-model-accepted", "SetProjectorsBasis accepted matrices whose shapes do not fit the record length %d / each other", n)
+				return
+			}
+			c.Cov("refused_model_requests", 1)
+		}
 	}
 	rec := &DataRecord{data: data, presamples: npre, signed: signed, channelIndex: 0}
 	dsp.AnalyzeData([]*DataRecord{rec})
